@@ -368,8 +368,13 @@ def canonical_key(raw: str, site: dict[str, Any], real: str, runtime: list[str],
 				# the bounds were instrumented in place: look through the recorder call
 				while isinstance(b, ast.Call) and isinstance(b.func, ast.Name) and b.func.id == 'c03rec_':
 					b = b.args[1]
+				# a `+` / `-` directly over an integer literal is a literal bound too (da8b916)
+				if isinstance(b, ast.UnaryOp) and isinstance(b.op, (ast.USub, ast.UAdd)):
+					b = b.operand
+					while isinstance(b, ast.Call) and isinstance(b.func, ast.Name) and b.func.id == 'c03rec_':
+						b = b.args[1]
 				return b is None or (isinstance(b, ast.Constant) and type(b.value) is int and b.value >= 0)
-			# literal or omitted bounds were repaired (c5f6dc1); negative / computed bounds still keep the whole tuple type
+			# omitted, literal and signed literal bounds were repaired (c5f6dc1, da8b916); computed bounds still keep the whole tuple type
 			return 'tuple-slice' if literal(n.slice.lower) and literal(n.slice.upper) and n.slice.step is None else 'tuple-slice-nonliteral-bounds'
 		if isinstance(n, ast.Call) and isinstance(n.func, ast.Attribute) and n.func.attr == '__init__' and 'None' in runtime:
 			return 'explicit-init-call'
